@@ -1465,8 +1465,11 @@ impl Ref {
                         // END as the last thing in the program: nothing left to continue
                         self.cont = None;
                         if let Place::Prog(i) = pos.place {
-                            if i + 1 < self.flat.len() {
-                                // ... except lines without code (REM, DATA): not settled
+                            // ... settled only for a plain END that is the last statement of the last
+                            // line; lines without code behind it (REM, DATA) or an END inside an IF
+                            // branch are not
+                            let plain_last = i + 1 == self.flat.len() && matches!(self.prog.lines.get(i).and_then(|l| l.stmts.last()), Some(Stmt::End));
+                            if !plain_last {
                                 self.cont_end_grey = true;
                             }
                         }
